@@ -354,6 +354,17 @@ Qed.
 Definition set_sum (h : hist) (s : fsum) : hist :=
   mkH (h_bounds h) (h_counts h) (h_count h) s (h_min h) (h_max h) (h_rmm h) (h_rmm_mem h).
 
+(* for either instrument kind: everything but the sum depends on the multiset of values only *)
+Theorem agg_perm_fields : forall o c xs ys, Permutation xs ys ->
+  set_sum (agg o c xs) (SFin 0) = set_sum (agg o c ys) (SFin 0).
+Proof.
+  intros o c xs ys Hp. rewrite !agg_closed. unfold closed, set_sum.
+  cbn [h_bounds h_counts h_count h_sum h_min h_max h_rmm h_rmm_mem].
+  rewrite (Permutation_length Hp), (list_min_perm _ _ Hp), (list_max_perm _ _ Hp).
+  f_equal. unfold cf_counts. apply map_ext. intros j. unfold cnt.
+  rewrite (filter_length_perm _ _ _ Hp). reflexivity.
+Qed.
+
 Lemma zip_cf : forall f n xs ys, zip_with wadd (cf_counts f n xs) (cf_counts f n ys) = cf_counts f n (xs ++ ys).
 Proof.
   intros f n xs ys. apply list_eq_nth.
